@@ -3,6 +3,7 @@ package engb
 import (
 	"encoding/json"
 	"fmt"
+	"strings"
 
 	"github.com/orda-io/orda/client/pkg/iface"
 	"github.com/orda-io/orda/client/pkg/model"
@@ -212,6 +213,15 @@ type notif struct {
 // checkPublishes: C18 part 1 — one publish per committing push with (pusher, datatype, new end of log); none otherwise.
 func (m *monitors) checkPublishes(r *run, dts map[string]*dtInfo) {
 	w := r.w
+	if r.prop != "C18" {
+		// outside C18's own plans the database can fail inside a commit: operations are stored, the push
+		// is refused and (rightly) not announced. Judged only in runs without such a fault.
+		for k, v := range r.res.Faults {
+			if (strings.HasPrefix(k, "mongo-") || k == "server-crash") && v > 0 && k != "mongo-slow" && k != "mongo-stall" {
+				return
+			}
+		}
+	}
 	// which calls stored operations, and which (duid → max sseq)
 	colls := map[int32]string{}
 	for _, d := range r.docsOf(schema.CollectionNameCollections) {
@@ -275,6 +285,31 @@ func (m *monitors) checkPublishes(r *run, dts map[string]*dtInfo) {
 			}
 		}
 	}
+	// a REST patch is a push like any other (made by a client the server creates for the request)
+	for _, c := range w.tr.calls {
+		if c.method != "PatchDocument" || c.state != "finished" || c.inst == nil || c.inst.dead || c.resp == nil || c.resp.err != nil {
+			continue
+		}
+		if r.lagging[callOwner(c)] || m.pubChecked[c] || r.hasPending(callOwner(c)) {
+			continue
+		}
+		m.pubChecked[c] = true
+		for _, duid := range sortedKeys(dts) {
+			di := dts[duid]
+			var maxS uint64
+			cuid := ""
+			for _, so := range di.ops {
+				if r.insertedBy[so.doc.ID] == callOwner(c) && so.doc.Sseq > maxS {
+					maxS, cuid = so.doc.Sseq, so.op.ID.GetCUID()
+				}
+			}
+			if maxS > 0 {
+				r.probe("rest-patch-publish-expected")
+				_ = cuid // the announcement of a REST patch names the patch API as the pusher, not the per-request client
+				expect = append(expect, exp{topic: colls[di.doc.CollectionNum] + "/" + di.doc.Key, cuid: "", duid: duid, sseq: maxS, owner: callOwner(c)})
+			}
+		}
+	}
 	used := make([]bool, len(w.br.pubs))
 	for _, e := range expect {
 		found := 0
@@ -283,7 +318,7 @@ func (m *monitors) checkPublishes(r *run, dts map[string]*dtInfo) {
 			if json.Unmarshal(p.Payload, &n) != nil {
 				continue
 			}
-			if p.Topic == e.topic && n.CUID == e.cuid && n.DUID == e.duid && n.Sseq == e.sseq {
+			if p.Topic == e.topic && (n.CUID == e.cuid || e.cuid == "") && n.DUID == e.duid && n.Sseq == e.sseq {
 				found++
 				used[i] = true
 			}
